@@ -2,8 +2,8 @@
 `_strptime`) translated by Python's own `re._parser` parse tree into z3 regular languages;
 language equivalence / inclusion / disjointness decided by z3's sequence solver.
 
-Model limits (listed in the evidence): `\\d` is [0-9] and `\\s` is [ \\t\\n\\r\\f\\v] (ASCII);
-IGNORECASE covers ASCII letters; look-around and back-references are not supported (only a
+Model limits (listed in the evidence): `\\d`, `\\s`, `\\w` are the character sets CPython's `re` gives them for str
+patterns (computed from the interpreter over all code points); IGNORECASE covers ASCII letters; look-around and back-references are not supported (only a
 negative look-ahead of a literal at the start of a fixed-width group is, which is what
 grammar.py uses); anchors are ignored (all uses are fullmatch)."""
 import re
@@ -13,9 +13,33 @@ import time
 
 import z3
 
-DIGITS = z3.Range("0", "9")
-SPACE = z3.Union(*[z3.Re(c) for c in " \t\n\r\f\v"])
+# The universe of every query is the set of strings over latin-1 (U+0000..U+00FF): the PVL character set is a subset of it, and
+# z3's regex solver does not scale to the 64 ranges of Unicode decimal digits.  Characters above U+00FF are outside the model.
+UNIVERSE_MAX = 0xFF
 ANYCHAR = z3.AllChar(z3.ReSort(z3.StringSort()))
+LATIN1 = z3.Star(z3.Range(chr(0), chr(UNIVERSE_MAX)))
+_CATS = {}
+
+
+def category(pat):
+    """the set of characters a one-character str pattern (\\d, \\s, \\w) matches in CPython, as a union of ranges
+    (computed from the interpreter itself, within the latin-1 universe of the queries, once per process)"""
+    if pat not in _CATS:
+        c = re.compile(pat)
+        ranges = []
+        start = None
+        for cp in range(UNIVERSE_MAX + 1):
+            hit = c.match(chr(cp)) is not None
+            if hit and start is None:
+                start = cp
+            if not hit and start is not None:
+                ranges.append((start, cp - 1))
+                start = None
+        if start is not None:
+            ranges.append((start, UNIVERSE_MAX))
+        _CATS[pat] = (ranges, z3.Union(*[z3.Range(chr(a), chr(b)) for a, b in ranges]) if len(ranges) > 1
+                      else z3.Range(chr(ranges[0][0]), chr(ranges[0][1])))
+    return _CATS[pat][1]
 
 
 class Unsupported(Exception):
@@ -47,11 +71,11 @@ def charset(items, icase):
                         parts.append(z3.Re(ch.swapcase()))
         elif op is C.CATEGORY:
             if av is C.CATEGORY_DIGIT:
-                parts.append(DIGITS)
+                parts.append(category(r"\d"))
             elif av is C.CATEGORY_SPACE:
-                parts.append(SPACE)
+                parts.append(category(r"\s"))
             elif av is C.CATEGORY_WORD:
-                parts.append(z3.Union(DIGITS, z3.Range("a", "z"), z3.Range("A", "Z"), z3.Re("_")))
+                parts.append(category(r"\w"))
             else:
                 raise Unsupported(f"category {av}")
         else:
@@ -136,6 +160,7 @@ def _solve(constraint_fn, rlimit=40_000_000):
     s = z3.Solver()
     s.set("rlimit", rlimit)
     x = z3.String("w")
+    s.add(z3.InRe(x, LATIN1))
     s.add(constraint_fn(x))
     t = time.time()
     r = s.check()
